@@ -1,20 +1,22 @@
 #!/bin/bash
 # run_seeded.sh <seeded-id> [runs] [extra verif-check flags...]
-# Applies /verif/seeded/<id>/patch.diff to a scratch copy of /repo (never to
-# /repo itself), runs the check of the property it breaks against that copy via
+# Applies seeded/<id>/patch.diff to a scratch copy of /repo (never to /repo
+# itself), runs the check of the property it breaks against that copy via
 # VERIF_REPO, prints the verdict line and removes the copy.
 set -u
+V=$(cd "$(dirname "$0")/.." && pwd)
 ID=$1; RUNS=${2:-3000}; shift; shift || true
-D=/verif/seeded/$ID
+D=$V/seeded/$ID
 PROP=$(python3 -c "import json;print(json.load(open('$D/meta.json'))['breaks_property'])")
 S=$(mktemp -d /var/tmp/seeded-XXXXXX)
 rsync -a --exclude .git /repo/ $S/repo/
 (cd $S/repo && git init -q . 2>/dev/null; git apply --unsafe-paths -p1 $D/patch.diff) || { echo "$ID: patch does not apply"; rm -rf $S; exit 9; }
 mkdir -p $S/replays
-VERIF_REPO=$S/repo VERIF_REPLAY_DIR=$S/replays /verif/check.sh ${PROP_OVERRIDE:-$PROP} --runs $RUNS --no-evidence "$@" > $S/log.txt 2>&1
+VERIF_REPO=$S/repo VERIF_REPLAY_DIR=$S/replays $V/check.sh ${PROP_OVERRIDE:-$PROP} --runs $RUNS --no-evidence "$@" > $S/log.txt 2>&1
 rc=$?
 echo "== $ID ($PROP) exit=$rc"
-grep -E "^(VIOLATION|violation in run|minimised|KNOWN|OK |NO VERDICT|[0-9]+ simulated runs|further violation)" $S/log.txt | cut -c1-400
+grep -E "^(VIOLATION|violation in run|minimised|KNOWN|OK |NO VERDICT|[0-9]+ simulated runs|scenario C|verif-check: INFRA|infrastructure)" $S/log.txt | cut -c1-300
+grep -E "^further violation" $S/log.txt | cut -c1-160 | head -${FURTHER:-3}
 grep -A12 "^violation in run" $S/log.txt | grep -v "^violation in run" | head -${DETAIL:-0}
 if [ -n "${KEEP_REPLAY:-}" ]; then mkdir -p /var/tmp/seeded-replays/$ID; cp $S/replays/* /var/tmp/seeded-replays/$ID/ 2>/dev/null; cp $S/log.txt /var/tmp/seeded-replays/$ID/; fi
 rm -rf $S
